@@ -200,3 +200,47 @@ func hasNL(t *Term, memo map[*Term]bool) bool {
 	memo[t] = r
 	return r
 }
+
+// nlFacts returns ground facts about the uninterpreted abstractions of non-linear operations occurring in ts
+// (sign, zero, monotonicity and Euclidean division bounds). They are consequences of the real operations,
+// so adding them keeps the relaxed query weaker than the exact one.
+func nlFacts(ts ...*Term) *Term {
+	seen := map[*Term]bool{}
+	var out []*Term
+	var walk func(t *Term)
+	walk = func(t *Term) {
+		if seen[t] {
+			return
+		}
+		seen[t] = true
+		if t.Op == "uf" && len(t.Args) == 2 {
+			a, b := t.Args[0], t.Args[1]
+			switch t.Name {
+			case "nl.mul":
+				out = append(out,
+					Implies(And(Ge(a, Zero), Ge(b, Zero)), Ge(t, Zero)),
+					Implies(Or(Eq(a, Zero), Eq(b, Zero)), Eq(t, Zero)),
+					Implies(And(Ge(a, Zero), Ge(b, One)), Ge(t, a)),
+					Implies(And(Ge(b, Zero), Ge(a, One)), Ge(t, b)),
+					Implies(Eq(a, One), Eq(t, b)),
+					Implies(Eq(b, One), Eq(t, a)),
+					// rates bounded by 1.0 (10^18): x * rate <= x * 10^18
+					Implies(And(Ge(a, Zero), Le(b, ONE)), Le(t, Mul(a, ONE))),
+					Implies(And(Ge(b, Zero), Le(a, ONE)), Le(t, Mul(b, ONE))))
+			case "nl.div":
+				out = append(out,
+					Implies(And(Gt(b, Zero), Ge(a, Zero)), And(Ge(t, Zero), Le(t, a))),
+					Implies(And(Gt(b, Zero), Lt(a, b), Ge(a, Zero)), Eq(t, Zero)))
+			case "nl.mod":
+				out = append(out, Implies(Gt(b, Zero), And(Ge(t, Zero), Lt(t, b))))
+			}
+		}
+		for _, x := range t.Args {
+			walk(x)
+		}
+	}
+	for _, t := range ts {
+		walk(t)
+	}
+	return And(out...)
+}
